@@ -679,14 +679,12 @@ theorem repLoop_nested (g : NodeGrammar) (unit : Nat → Inp → M → R Val) (h
     intro idx i m acc i' m' vs lo h hacc
     unfold repLoop at h
     split at h
-    · split at h
-      · cases h
-      · injection h with h1 _ h3; subst h1 h3; exact hacc
+    · obtain ⟨h1, _, h3⟩ := repDone_ok h; subst h1 h3; exact hacc
     · split at h
       · cases h
       · split at h
         · cases h
-        · injection h with h1 _ h3; subst h1 h3; exact hacc
+        · obtain ⟨h1, _, h3⟩ := repDone_ok h; subst h1 h3; exact hacc
       · next i1 m1 a1 h1 =>
         exact ih _ _ _ _ _ _ _ _ h (nested_snoc g hacc (hu idx _ _ _ _ _ (restoreOnNone_ok h1)))
 
@@ -926,7 +924,7 @@ theorem parse_nested (g : NodeGrammar) (uni : Uni) :
             · exact this
             · exact WellNested.nil hle
     | array k x =>
-      simp only [parse] at h
+      simp only [parse, arrayTryInto_arrayLoop] at h
       split at h
       · cases h
       · cases h
